@@ -61,6 +61,8 @@ THEOREMS = [
     "Cotengra.C11.head_plan_counterexample",
     "Cotengra.C11.plan_groups_partition",
     "Cotengra.C11.perm_is_perm",
+    "Cotengra.C11.tensordot_eq_wellformed",
+    "Cotengra.C11.tensordot_plan_sound",
 ]
 TRUSTED = [
     "Lean 4.33 kernel; axioms ⊆ {propext, Classical.choice, Quot.sound}",
